@@ -419,6 +419,9 @@ class ClientWebSocketResponse(Generic[_DecodeText]):
         self, timeout: float | None = None
     ) -> WSMessageDecodeText | WSMessageNoDecodeText:
         receive_timeout = timeout or self._timeout.ws_receive
+        # A single deadline for the whole call: the PING/PONG frames that are
+        # handled below must not re-arm the timeout.
+        deadline = self._loop.time() + receive_timeout if receive_timeout else None
 
         while True:
             if self._waiting:
@@ -441,7 +444,7 @@ class ClientWebSocketResponse(Generic[_DecodeText]):
                         # Timeout() object can take almost 50% of the
                         # run time in this loop so we avoid it if
                         # there is no read timeout.
-                        async with async_timeout.timeout(receive_timeout):
+                        async with async_timeout.timeout_at(deadline):
                             msg = await self._reader.read()
                     else:
                         msg = await self._reader.read()
@@ -488,7 +491,7 @@ class ClientWebSocketResponse(Generic[_DecodeText]):
             elif msg.type is WSMsgType.PING and self._autoping:
                 # The peer may have stopped reading: the automatic reply is
                 # bounded by the receive timeout as well.
-                async with async_timeout.timeout(receive_timeout or None):
+                async with async_timeout.timeout_at(deadline):
                     await self.pong(msg.data)
                 continue
             elif msg.type is WSMsgType.PONG and self._autoping:
